@@ -678,6 +678,25 @@ impl<'a> VisitMut for Rw<'a> {
             } else {
                 blk.stmts.push(marker("__vx_closure_end", Some(k)));
             }
+            // R14: destructuring closure parameters `|(x, y)| e` => `|vx_cp0| { let (x, y) = vx_cp0; e }`
+            let mut lets: Vec<Stmt> = vec![];
+            for (pi, inp) in c.inputs.iter_mut().enumerate() {
+                let is_simple = match inp {
+                    syn::Pat::Ident(_) => true,
+                    syn::Pat::Type(t) => matches!(&*t.pat, syn::Pat::Ident(_)),
+                    _ => false,
+                };
+                if !is_simple {
+                    let id = syn::Ident::new(&format!("vx_cp{}_{}", k, pi), Span::call_site());
+                    let old = inp.clone();
+                    lets.push(syn::parse2(quote!( let #old = #id; )).unwrap());
+                    *inp = syn::Pat::Ident(syn::PatIdent { attrs: vec![], by_ref: None, mutability: None, ident: id.clone(), subpat: None });
+                    self.log.add("R14", "closure-pattern", format!("{} => {}", old.to_token_stream(), id));
+                }
+            }
+            for (li, l) in lets.into_iter().enumerate() {
+                blk.stmts.insert(li, l);
+            }
             blk.stmts.insert(0, marker("__vx_closure_head", Some(k)));
             *c.body = Expr::Block(syn::ExprBlock { attrs: vec![], label: None, block: blk });
             return;
